@@ -30,7 +30,7 @@ CONSTANTS
   ReaderVariant,  \* "asis" | "noadvance" | "resume0"
   F,              \* proto: number of plan files
   PB,             \* proto: page blocks per plan file
-  ProtoVariant,   \* "asis" | "nocheck" | "keepbad" | "direct"
+  ProtoVariant,   \* "asis" | "nocheck" | "keepbad" | "direct" | "sentinel" (output removed only when the PRAGMA answered rows)
   X1Fixed,        \* proto: FALSE = ltx.Decoder.Close slices [:len-8] without a length check (finding X1)
   Collisions      \* proto: a flipped block whose integrity tag still matches is possible
 
@@ -156,7 +156,7 @@ Classes ==
 PInit ==
   /\ ppc = "check" /\ tmp = "absent" /\ tmpSynced = FALSE /\ dirSynced = FALSE
   /\ pre \in BOOLEAN /\ out = (IF pre THEN "pre" ELSE "absent")
-  /\ cls \in Classes /\ integ \in {"none", "check"} /\ sqliteSees \in BOOLEAN
+  /\ cls \in Classes /\ integ \in {"none", "check"} /\ sqliteSees \in {"no", "rows", "fails"}
   /\ pres = "none" /\ nextF = 1 /\ content = "good" /\ renamedSynced = TRUE
 
 \* every `return err` after :733 runs the deferred os.Remove(tmpOutputPath)
@@ -236,14 +236,14 @@ FsyncDir_ ==
 \* :773-783 checkIntegrity; on failure remove output, -shm, -wal
 Integrity_ ==
   /\ ppc = "integrity"
-  /\ IF integ = "check" /\ out = "bad" /\ sqliteSees
-       THEN /\ out' = IF ProtoVariant = "keepbad" THEN out ELSE "absent"
+  /\ IF integ = "check" /\ out = "bad" /\ sqliteSees # "no"
+       THEN /\ out' = IF ProtoVariant = "keepbad" \/ (ProtoVariant = "sentinel" /\ sqliteSees = "fails") THEN out ELSE "absent"
             /\ pres' = "error"
        ELSE /\ pres' = "ok" /\ UNCHANGED out
   /\ ppc' = "done"
   /\ UNCHANGED <<tmp, tmpSynced, dirSynced, pre, cls, integ, sqliteSees, nextF, content, renamedSynced>>
 
-Undetectable == cls.kind = "flip" /\ cls.tag /\ (integ = "none" \/ ~sqliteSees)
+Undetectable == cls.kind = "flip" /\ cls.tag /\ (integ = "none" \/ sqliteSees = "no")
 
 \* error  =>  no file at the output path, a pre-existing output untouched, no .tmp left
 P_ErrorClean == (ppc = "done" /\ pres = "error") => (out = (IF pre THEN "pre" ELSE "absent") /\ tmp = "absent")
@@ -262,7 +262,7 @@ P_DetectableIsError == (ppc = "done" /\ pres = "ok") => (cls.kind \in {"intact"}
 -----------------------------------------------------------------------------
 Init == IF Part = "reader"
           THEN RInit /\ ppc = "off" /\ out = "absent" /\ tmp = "absent" /\ tmpSynced = FALSE /\ dirSynced = FALSE
-               /\ pre = FALSE /\ cls = NoCls /\ integ = "none" /\ sqliteSees = FALSE /\ pres = "none" /\ nextF = 1
+               /\ pre = FALSE /\ cls = NoCls /\ integ = "none" /\ sqliteSees = "no" /\ pres = "none" /\ nextF = 1
                /\ content = "good" /\ renamedSynced = TRUE
           ELSE PInit /\ pc = "off" /\ offset = 0 /\ retryN = 0 /\ rc = 0 /\ rcPos = 0 /\ rerr = "none"
                /\ delivered = <<>> /\ faults = 0 /\ result = "none" /\ backoff = 0 /\ openOK = TRUE
